@@ -194,7 +194,14 @@ theorem refused_atomic (ty : FTy) (old : Bytes) (key : Key) (v : PyVal) :
     · simp_all
     · exact lift_atomic _ _ (by simp_all)
     · rfl
-  | str n => simp only at h ⊢; split <;> first | rfl | exact lift_atomic _ _ (by simp_all)
+  | str n =>
+    simp only at h ⊢
+    split
+    · split
+      · rfl
+      · exact lift_atomic _ _ (by simp_all)
+    · exact lift_atomic _ _ (by simp_all)
+    · rfl
   | arr cls vk n =>
     simp only at h ⊢
     split
@@ -405,34 +412,59 @@ theorem str_field_sound (n : Nat) (hn : 1 < n) (old : Bytes) (s : Scalar) (post 
       post = upToNul cs ++ List.replicate (n - (upToNul cs).length) 0 ∧ upToNul post = upToNul cs := by
   unfold setField at h
   simp only at h
-  unfold setStr at h
-  simp only [if_true] at h
   have hn1 : ¬ n = 1 := by omega
   split at h
-  · simp [lift] at h
-  · rename_i hchk
-    unfold strCheck at hchk
-    unfold strStore at h
-    simp only [hn1, if_false] at hchk h
-    cases s with
-    | str cs =>
-      simp only at hchk h
-      split at hchk
-      · cases hchk
-      · rename_i hlen
+  · -- an instance of a ctypes char-array class: refused (by ctypes if it is the field's own class, else as "no str")
+    split at h
+    · simp at h
+    · simp [setStr, strCheck, lift] at h
+  · rename_i s' _ _ heq
+    cases heq
+    unfold setStr at h
+    simp only [if_true] at h
+    split at h
+    · simp [lift] at h
+    · rename_i hchk
+      unfold strCheck at hchk
+      unfold strStore at h
+      simp only [hn1, if_false] at hchk h
+      cases s with
+      | str cs =>
+        simp only at hchk h
         split at hchk
         · cases hchk
-        · rename_i hasc
-          simp only [hasc, Bool.false_eq_true, if_false] at h
-          split at h
-          · simp [lift] at h
-          · simp only [lift, Prod.mk.injEq, and_true] at h
-            refine ⟨cs, rfl, by omega, ?_, h.symm, ?_⟩
-            · intro c hc
-              simp only [List.any_eq_true, not_exists, not_and, decide_eq_true_eq] at hasc
-              have := hasc c hc; omega
-            · rw [← h]; exact upToNul_append_zeros _ _ (upToNul_no_zero cs)
-    | _ => cases hchk
+        · rename_i hlen
+          split at hchk
+          · cases hchk
+          · rename_i hasc
+            simp only [hasc, Bool.false_eq_true, if_false] at h
+            split at h
+            · simp [lift] at h
+            · simp only [lift, Prod.mk.injEq, and_true] at h
+              refine ⟨cs, rfl, by omega, ?_, h.symm, ?_⟩
+              · intro c hc
+                simp only [List.any_eq_true, not_exists, not_and, decide_eq_true_eq] at hasc
+                have := hasc c hc; omega
+              · rw [← h]; exact upToNul_append_zeros _ _ (upToNul_no_zero cs)
+      | _ => cases hchk
+  · exact absurd h (by simp)
+
+/-- **a ctypes char-array instance is never stored into a string field** - of the field's own class `c_char * n` (the
+descriptor hands it to ctypes unvalidated, and the setter of a char-array field wants `bytes`) or of any other length,
+with validation on or off: an exception comes out and every byte of the field is as before.  (The branch of
+`String.__set__` for `isinstance(value, self._ctype)` can therefore never *accept* anything; a change that makes it
+accept - by dropping the store, say - accepts a value outside the Spec's domain.) -/
+theorem str_ctypes_array_refused (en : Bool) (n m : Nat) (old raw : Bytes) :
+    ∃ e, setField en (.str n) old .whole (.sc (.cdata (.chars m) raw)) = (old, some e) := by
+  unfold setField
+  simp only
+  split
+  · exact ⟨_, rfl⟩
+  · cases en <;> simp [setStr, strCheck, strStore, lift]
+
+example : setField true (.str 3) [104, 105, 0] .whole (.sc (.cdata (.chars 3) [97, 98, 0])) = ([104, 105, 0], some .typeError) ∧
+    setField false (.str 3) [104, 105, 0] .whole (.sc (.cdata (.chars 2) [97, 0])) = ([104, 105, 0], some .attributeError) ∧
+    inDom (.str 3) .whole (.sc (.cdata (.chars 3) [97, 98, 0])) = false := by decide
 
 /-! ## the validation switch -/
 
@@ -582,6 +614,7 @@ theorem str_field_accepted_sound (n : Nat) (hn : 1 < n) (old : Bytes) (key : Key
     unfold setField at h
     simp only at h
     split at h
+    · exact ⟨rfl, _, rfl⟩
     · exact ⟨rfl, _, rfl⟩
     · simp at h
   obtain ⟨rfl, s, rfl⟩ := hkv
@@ -1080,6 +1113,7 @@ theorem float_wrong_type_refused (k : FK) (old : Bytes) (s : Scalar)
     simp [validateOne, this]
   | int k' => rfl
   | char => rfl
+  | chars m => rfl
 
 /-- **bools are accepted** (`isinstance(True, int)`): a double field holds exactly 1.0 / 0.0 afterwards -/
 theorem double_accepts_bool (old : Bytes) (t : Bool) :
